@@ -18,6 +18,7 @@ import EmitModel.Lemmas.BatcherCover
 import EmitModel.Lemmas.BatcherExt
 import EmitModel.Model.OtlpE2E
 import EmitModel.Lemmas.FilePipe
+import EmitModel.Lemmas.OtlpPipe
 
 namespace EmitModel.C07
 open EmitModel.Batcher EmitModel.Sched
@@ -294,4 +295,44 @@ private def plabels : List FilePipe.Label :=
 example : ((Sched.run (FilePipe.step pcfg) (FilePipe.init emptyState) plabels).map fun s =>
     (s.ch.fired, s.ch.acceptedAt, s.failed, s.okd, s.fs.fs.map (·.2.synced), s.ch.tornDown)) =
     some ([7], [(7, [0, 1])], [], [(0, 0), (1, 0)], [[97, 10], [98, 10]], false) := by rfl
+end EmitModel.C07
+
+/-! ### Carry-through to the OTLP emitter as a whole (Model/OtlpPipe.lean: the channel with the send loop as its processor) -/
+namespace EmitModel.C07
+open EmitModel.Batcher EmitModel.Sched EmitModel.Otlp
+
+/-- **A successful flush of an OTLP signal means answered.** In every execution of one signal of the OTLP emitter as
+    a whole — any interleaving of sends, flush requests, hand-offs, callbacks, retry waits and drops, with every
+    conclusion of an `on_batch` call being what the transport's send loop does with the held requests against ANY
+    collector script (acknowledgements, error statuses, gRPC statuses, resets before or after the body, stalls,
+    connections dropped behind a response head, a dead endpoint) — once the callback of flush watcher `w` has run,
+    every item accepted before the flush was requested is: cleared by a counted overflow truncation; or part of a batch
+    that was given up (retry budget exhausted / `no_retry`); or DELIVERED: contained in a request the collector
+    recorded and answered with what the client takes as an acknowledgement. Receiver alive, as in `flush_sound`. -/
+theorem otlp_flush_means_answered (cfg : OtlpPipe.Cfg) (net0 : Net) (s : OtlpPipe.St)
+    (h : OtlpPipe.Reachable cfg net0 s) (hn : s.ch.registered.Nodup) (ht : s.ch.tornDown = false)
+    (w : Nat) (acc : List Nat) (ha : (w, acc) ∈ s.ch.acceptedAt) (hf : w ∈ s.ch.fired) :
+    ∀ x ∈ acc, x ∈ s.ch.truncations.flatten ∨ x ∈ s.failed ∨ OtlpPipe.Delivered cfg.tr s.net.log (x : Int) := by
+  intro x hx
+  have hp := OtlpPipe.pinv_reachable cfg net0 s h
+  rcases flush_sound_accepted cfg.ch s.ch (OtlpPipe.reachable_proj cfg net0 s h) hn ht w acc ha hf x hx with hfin | htr
+  · rcases hp.fin x hfin with hfail | hok
+    · exact .inr (.inl hfail)
+    · exact .inr (.inr (hp.okd x hok))
+  · exact .inl htr
+
+/-- non-vacuity: three events in two requests (limit 2 bytes, sizes 1), the collector answers the first request with
+    503 and then acknowledges; the flush callback registered before the hand-off fires after the retry and all three
+    events are in acknowledged requests -/
+private def ocfg : OtlpPipe.Cfg := { ch := Batcher.Cfg.real 10, tr := .http, limit := 2, size := fun _ => 1 }
+private def onet : Net := { dead := false, script := [.status 503], slot := false, conns := 0, log := [] }
+private def olabels : List OtlpPipe.Label :=
+  [.chan (.send 0), .chan (.send 1), .chan (.send 2), .chan (.whenFlushed 7), .chan .rxTake, .chan .rxBegin, .process,
+   .chan .rxRetryWaited, .process, .chan .rxFireFlush]
+
+example : ((Sched.run (OtlpPipe.step ocfg) (OtlpPipe.init onet) olabels).map fun s =>
+    (s.ch.fired, s.ch.acceptedAt, s.failed, s.okd, s.net.log.map (fun e => (e.ids, okResp .http e.resp)), s.ch.tornDown)) =
+    some ([7], [(7, [0, 1, 2])], [], [0, 1, 2],
+      [(some [0, 1], true), (some [2], true), (some [2], false)], false) := by rfl
+
 end EmitModel.C07
